@@ -332,11 +332,56 @@ define(
     'DESIGN.md section 7, C20',
     'Level is the weaker (bounded) one.')
 
+FRAME_TRUST = [
+    'row algebra of long-format pandas frames (engine/frame_ledger.py): '
+    'copy / column projection / boolean masks keep row identity and cell '
+    'values; isin / == select the rows whose cell matches; ~ is the '
+    'complement within the frame; drop(labels) removes every row carrying a '
+    'label; .loc[label] raises KeyError when no row carries it; sum(column) '
+    'is a function of the row set',
+    'semantics.DataFrameNameMapping / GroupSemantics / PeriodSemantics: '
+    'arbitrary pairwise distinct attribute values, or ValueError']
+
+define(
+    'C07', 'exploration',
+    [('tbr_iroas', None, False)],
+    ENGINE_TRUST[:3] + FRAME_TRUST + [
+        'utils.float_order is an uninterpreted function of its argument'],
+    ['precondition of the proved core: the control group has rows in the '
+     'test period', 'floats as reals'],
+    'Proved: _is_fixed_cost_scenario returns true exactly when the order of '
+    'magnitude of (pre-period cost summed over the rows of every group + '
+    'test-period cost of the control group) of the aggregated cost frame is '
+    'below 1e-10, and its .loc cannot raise.  Everything else (fixed-cost '
+    'report = response summary / cost, paired simulation, determinism, '
+    'lower <= estimate <= upper, label against the raw frame, equivariance) '
+    'is a bounded run-time contract against a NumPy oracle.',
+    'DESIGN.md section 7, C07',
+    'Level is the weaker (bounded) one.')
+
+define(
+    'C19', 'exploration',
+    [('tbrdiagnostics', None, False)],
+    ENGINE_TRUST[:3] + FRAME_TRUST + [
+        'ASSUMED contracts (bodies not verified, read off the code): '
+        '_detect_noisy_geos, _detect_outliers, _correlation_test write no '
+        'field and return a list / None / bool; _create_analysis_data writes '
+        'only _analysis_data := ANA(screened rows, target, names) and raises '
+        'ValueError iff a group has no row; utils.kwarg_subdict is pure'],
+    ['what the pivot ANA computes (per-date group totals) and the caller\'s '
+     'frame staying unmodified are checked by the bounded monitor only'],
+    'Proved for TBRDiagnostics.fit over the row algebra: the screened data '
+    'hold exactly the input rows minus every row of the reported noisy geos '
+    'and of the reported outlier dates; the analysis data are recomputed '
+    'from the final screened data; the target defaults to the response '
+    'column; only ValueError escapes.  Against plain recomputation from the '
+    'raw frame (totals, row order independence, caller\'s frame): bounded '
+    'run-time contract.',
+    'DESIGN.md section 7, C19',
+    'Level is the weaker (bounded) one.')
+
 for _pid, _txt in [
-    ('C07', 'iROAS summary coherence, scenario label, determinism, '
-            'equivariance'),
     ('C18', 'effect series well-formedness vs recomputation'),
-    ('C19', 'screened data / analysis data vs plain recomputation'),
 ]:
   define(
       _pid, 'exploration', [], ENGINE_TRUST[:0] + [
